@@ -198,7 +198,9 @@ def run(tier):
               ("", 12 if q else 24, 6 if q else 60),
               ("enable-all=true;disable=" + slow + ";@hugeParam.sizeThreshold=1;@rangeValCopy.sizeThreshold=1;@rangeExprCopy.sizeThreshold=1", 12 if q else 24, 4 if q else 60),
               ("enable-all=true", 6 if q else 12, 2 if q else 10),
-              ("enable=#performance;disable=", 12, 4 if q else 40)]
+              ("enable=#performance;disable=", 12, 4 if q else 40),
+              # analyzer.DisableCache (the exported switch for analyzer testing): every pass builds its own set
+              ("NOCACHE=1;enable=hugeParam,rangeValCopy,captLocal,underef;disable=;@hugeParam.sizeThreshold=70", 8, 3 if q else 12)]
     # the analyzer's cache is per process and is built by the first (concurrent) entry: several cold
     # processes per configuration, few rounds each
     cold = 3 if q else 8
